@@ -45,7 +45,7 @@ func propBig(c BigCase) error {
 		d2 = exact.MinRat(d2, exact.PointSegDist2(exact.Pt(q[0], q[1]), exact.Pt(float64(10*j), float64(6*(j%2))), exact.Pt(float64(10*(j+1)), float64(6*((j+1)%2)))))
 	}
 	got := xy.DistanceFromPointToLineString(layout, q, line)
-	tol := 1e-9 * float64(10*c.N)
+	tol := 1e-12 * float64(10*c.N)
 	if math.IsNaN(got) || !exact.WithinSqrt(got, d2, tol) {
 		return fmt.Errorf("DistanceFromPointToLineString(point beside segment %d of a %d-vertex zig-zag, stride %d) = %v, exact %v", c.K, c.N, c.Stride, got, math.Sqrt(exact.Float(d2)))
 	}
